@@ -574,6 +574,9 @@ void instance_t::option_directive(char * line)
       *p++ = '\0';
   }
 
+  if (std::strlen(line) < 2 || line[1] != '-')
+    throw_(option_error, _f("Illegal option %1%") % line);
+
   if (! process_option(context.pathname.string(), line + 2, *context.scope,
                        p, line))
     throw_(option_error, _f("Illegal option --%1%") % (line + 2));
